@@ -566,6 +566,8 @@ class SymbolValue(Value):
         if symbol.is_numeric():
             return NumericValue(symbol.int)
 
+        raise ValueError("[{}] is not defined as an address or a number".format(self.value))
+
     def is_8_bit(self):
         return False
 
